@@ -863,3 +863,14 @@ ENTRIES += [
     M("S13-learn-donates-arguments", "C11", "C11.11", (BA, "    @eqx.filter_jit\n    def learn(", "    @eqx.filter_jit(donate=\"all-except-first\")\n    def learn(")),
     V("S13-v-learn-jit-donate-none", "C11", (BA, "    @eqx.filter_jit\n    def learn(", "    @eqx.filter_jit(donate=\"none\")\n    def learn(")),
 ]
+
+ENTRIES += [
+    # ---------------------------------------------------------------- fourteenth (micro) seeding round
+    M("S14-classic-transition-pinned-float32", "C02", "C02.9", ("lerax/env/classic_control/base_classic_control.py", "        y = self.clip(sol.ys[0])\n", "        y = self.clip(sol.ys[0]).astype(jnp.float32)\n")),
+    M("S14-classic-transition-time-pinned", "C02", "C02.9", ("lerax/env/classic_control/base_classic_control.py", "        t = state.t + self.dt\n", "        t = jnp.asarray(state.t + self.dt, dtype=jnp.float32)\n")),
+    V("S14-v-classic-transition-default-width-spelled", "C02", ("lerax/env/classic_control/base_classic_control.py", "        assert sol.ys is not None\n", "        assert sol.ys is not None\n        assert jnp.issubdtype(state.y.dtype, jnp.floating), \"classic-control states are floating point (float32, or float64 under 64-bit mode)\"\n")),
+]
+
+ENTRIES += [
+    M("S14-step-autoreset-through-filter-cond", ["C12", "C01"], ["C12.8", "C01.3"], ("lerax/env/base_env.py", "        state = lax.cond(\n            terminal | truncate, lambda: self.initial(key=reset_key), lambda: next_state\n        )", "        state = filter_cond(\n            terminal | truncate, lambda: self.initial(key=reset_key), lambda: next_state\n        )"), ("lerax/env/base_env.py", "from jax import lax\n", "from jax import lax\nfrom lerax.utils import filter_cond\n")),
+]
